@@ -319,8 +319,16 @@ def q_asm_roundtrip(env, name=None):
             qr.undecided.append(f"script [{label}]: {e}")
             continue
         reported = False
-        for r in res:
-            qr.paths += 1
+        deferred = []
+        work = list(res)
+        while work:
+            r = work.pop(0)
+            if not work and deferred and not reported:
+                for d_ in deferred:
+                    d_._fallback = True
+                work, deferred = deferred, []
+            if not getattr(r, "_fallback", False):
+                qr.paths += 1
             c = r.ctx
             bad, goal = None, z3.BoolVal(True)
             if r.kind != "ok":
@@ -349,13 +357,17 @@ def q_asm_roundtrip(env, name=None):
                 s.add(cnd)
             s.add(goal)
             if not is_alias:
-                # keep the replay input clear of the known alias collision so that the native difference is this violation's own
+                # keep the replay input clear of the known alias collision so that the native difference is this violation's own:
+                # a path that forces an alias value is set aside, another path of the same script usually shows the same violation
                 s.push()
                 for d in c.payloads:
                     if len(d) == 1:
                         s.add(z3.Or(z3.ULT(d[0], 0x10), z3.UGT(d[0], 0x16)))
                 if s.check() != z3.sat:
                     s.pop()
+                    if not getattr(r, "_fallback", False):
+                        deferred.append(r)
+                        continue
             qr.queries += 1
             if s.check() != z3.sat:
                 continue
